@@ -18,6 +18,8 @@ pub enum Kind {
     Struct,
     /// Callable with one positional argument.
     Func1,
+    /// Callable with one positional argument, without side effects (same result before and after freeze).
+    PureFunc1,
     /// Callable with no arguments.
     Func0,
     RecordType,
@@ -36,6 +38,7 @@ impl Kind {
             Kind::Tuple => "tuple",
             Kind::Struct => "struct",
             Kind::Func1 => "func1",
+            Kind::PureFunc1 => "purefunc1",
             Kind::Func0 => "func0",
             Kind::RecordType => "record_type",
             Kind::EnumType => "enum_type",
@@ -52,6 +55,7 @@ impl Kind {
             "tuple" => Kind::Tuple,
             "struct" => Kind::Struct,
             "func1" => Kind::Func1,
+            "purefunc1" => Kind::PureFunc1,
             "func0" => Kind::Func0,
             "record_type" => Kind::RecordType,
             "enum_type" => Kind::EnumType,
@@ -166,7 +170,7 @@ impl<'r> Gen<'r> {
     }
 
     fn of_kind(&mut self, k: Kind) -> Option<String> {
-        let c: Vec<&(String, Kind)> = self.vars.iter().filter(|(_, kk)| *kk == k).collect();
+        let c: Vec<&(String, Kind)> = self.vars.iter().filter(|(_, kk)| *kk == k || (k == Kind::Func1 && *kk == Kind::PureFunc1)).collect();
         if c.is_empty() {
             None
         } else {
@@ -345,7 +349,7 @@ impl<'r> Gen<'r> {
         let funcs: Vec<(String, Kind)> = self
             .vars
             .iter()
-            .filter(|(_, k)| matches!(k, Kind::Func0 | Kind::Func1))
+            .filter(|(_, k)| matches!(k, Kind::Func0 | Kind::Func1 | Kind::PureFunc1))
             .cloned()
             .collect();
         for (f, k) in funcs {
@@ -606,7 +610,9 @@ impl<'r> Gen<'r> {
                 // simple defs
                 let f = self.fresh("f");
                 let cap = self.any_var();
-                let body = match self.rng.below(6) {
+                let variant = self.rng.below(6);
+                let pure = (1..=4).contains(&variant);
+                let body = match variant {
                     0 => format!("def {f}(a, b = []):\n    b.append(a)\n    return len(b)"),
                     1 => match cap {
                         Some(c) => format!("def {f}(x):\n    return [x, {c}]"),
@@ -623,7 +629,7 @@ impl<'r> Gen<'r> {
                     },
                 };
                 self.stmts.push(body);
-                self.bind(&f, Kind::Func1);
+                self.bind(&f, if pure { Kind::PureFunc1 } else { Kind::Func1 });
             }
             27 | 28 if self.feat.closures => {
                 let mk = self.fresh("mk");
@@ -649,7 +655,7 @@ impl<'r> Gen<'r> {
                             "def {mk}(k):\n    def outer(x):\n        def innermost(y):\n            return [k, x, y]\n        return [innermost(z) for z in range(2)]\n    return outer"
                         ));
                         self.stmts.push(format!("{f} = {mk}({init})"));
-                        self.bind(&f, Kind::Func1);
+                        self.bind(&f, Kind::PureFunc1);
                     }
                 }
             }
@@ -672,7 +678,7 @@ impl<'r> Gen<'r> {
                     Some(i) => self.stmts.push(format!("{n} = lambda x: [x, {i}, x * 2]")),
                     None => self.stmts.push(format!("{n} = lambda x: [x, x * 2]")),
                 }
-                self.bind(&n, Kind::Func1);
+                self.bind(&n, Kind::PureFunc1);
             }
             31 if self.feat.natives => {
                 // native consumers and callbacks
